@@ -1,10 +1,45 @@
-from jsim.envs.base import Adapter
+"""Sokoban: rules written from docs/environments/sokoban.md, the class docstring and reward.py docstrings.
+
+10x10 level. `fixed_grid`: 0 floor, 1 wall, 2 target. `variable_grid`: 0 empty, 3 agent, 4 box (4 boxes).
+Actions 0..3 = up, right, down, left (class docstring and `action_spec` docstring; docs/sokoban.md and the
+`step` docstring list another order - a naming inconsistency only, the displacement table is the
+class-docstring one). The agent moves one cell. If the cell ahead holds a box, the box is pushed one cell
+further. "If the agent attempts to move into a wall, off the grid, or push a box into a wall or off the
+grid, the grid state remains unchanged; however, the step count is incremented by one. Chained box pushes
+are not allowed and will result in no action."
+Dense reward: -0.1 per step, +1 / -1 per box moved onto / off a target, +10 when all four boxes are on
+targets. Sparse reward: only the +10 on completion. The episode ends when all 4 boxes are on targets or
+at the time limit (default 120).
+
+There is no action mask in the env; `legal()` is the set of moves that change something (mask_mode is
+"flat" only so that the C05 machinery can enumerate the moves that must be ignored).
+"""
+from __future__ import annotations
+
+from collections import deque
+from typing import Any, Dict, FrozenSet, Optional, Tuple
+
+import numpy as np
+
 from jsim.envs._mk import cfg, cross_tl
+from jsim.envs.base import Adapter
+
+DELTA = [(-1, 0), (0, 1), (1, 0), (0, -1)]  # up, right, down, left
+FLOOR, WALL, TARGET = 0, 1, 2
+EMPTY, AGENT, BOX = 0, 3, 4
+N_BOXES = 4
 
 
 class A(Adapter):
     name = "Sokoban"
-    mask_mode = None
+    mask_mode = "flat"
+    has_invalid_effect = True
+    has_physical = True
+    has_model = True
+    has_observer = True
+
+    def __init__(self) -> None:
+        self._plan_memo: Dict[Any, Optional[int]] = {}
 
     def configs(self):
         base = [cfg("toy", True, gen="toy", rew="dense", tl=None), cfg("simple", True, gen="simple", rew="sparse", tl=None)]
@@ -21,3 +56,205 @@ class A(Adapter):
 
     def time_limit(self, env, c):
         return 120 if c.get("tl") is None else c["tl"]
+
+    # ---- rules ---------------------------------------------------------------------------------
+    @staticmethod
+    def _agent(s: Any) -> Tuple[int, int]:
+        loc = np.asarray(s.agent_location)
+        return int(loc[0]), int(loc[1])
+
+    @staticmethod
+    def _boxes(vg: np.ndarray) -> FrozenSet[Tuple[int, int]]:
+        return frozenset((int(i), int(j)) for i, j in np.argwhere(vg == BOX))
+
+    @staticmethod
+    def _move(walls: np.ndarray, boxes: FrozenSet[Tuple[int, int]], agent: Tuple[int, int], a: int
+              ) -> Optional[Tuple[Tuple[int, int], FrozenSet[Tuple[int, int]]]]:
+        """The published move rule. None = the move changes nothing (wall / border / blocked push)."""
+        R, C = walls.shape
+        dr, dc = DELTA[a]
+        t = (agent[0] + dr, agent[1] + dc)
+        if not (0 <= t[0] < R and 0 <= t[1] < C) or walls[t]:
+            return None
+        if t in boxes:
+            b = (t[0] + dr, t[1] + dc)
+            if not (0 <= b[0] < R and 0 <= b[1] < C) or walls[b] or b in boxes:
+                return None
+            return t, (boxes - {t}) | {b}
+        return t, boxes
+
+    def _parts(self, s: Any) -> Tuple[np.ndarray, np.ndarray, FrozenSet[Tuple[int, int]], Tuple[int, int]]:
+        fg, vg = np.asarray(s.fixed_grid), np.asarray(s.variable_grid)
+        return fg == WALL, fg == TARGET, self._boxes(vg), self._agent(s)
+
+    def legal(self, s: Any, env: Any) -> np.ndarray:
+        walls, _, boxes, agent = self._parts(s)
+        return np.asarray([self._move(walls, boxes, agent, a) is not None for a in range(4)], bool)
+
+    def describe(self, s, env, idx):
+        return f"agent={self._agent(s)} variable_grid=\n{np.asarray(s.variable_grid)}\nfixed_grid=\n{np.asarray(s.fixed_grid)}"
+
+    @staticmethod
+    def _on_targets(boxes: FrozenSet[Tuple[int, int]], targets: np.ndarray) -> int:
+        return sum(1 for b in boxes if targets[b])
+
+    def _reward(self, cfg: Any, before: int, after: int) -> float:
+        solved = after == N_BOXES
+        if cfg["rew"] == "dense":
+            return 1.0 * (after - before) + (10.0 if solved else 0.0) - 0.1
+        return 10.0 if solved else 0.0
+
+    # ---- C05 (ignore-invalid) --------------------------------------------------------------------
+    def invalid_effect(self, ps, action, illegal, s, ts, env, cfg):
+        if not np.array_equal(np.asarray(s.variable_grid), np.asarray(ps.variable_grid)):
+            k = np.argwhere(np.asarray(s.variable_grid) != np.asarray(ps.variable_grid))[0].tolist()
+            return ("blocked_move_changed_grid", f"variable_grid changed at {k} on the blocked action {int(action)} (agent {self._agent(ps)})")
+        if self._agent(s) != self._agent(ps):
+            return ("blocked_move_moved_agent", f"agent_location {self._agent(ps)} -> {self._agent(s)} on the blocked action {int(action)}")
+        if not np.array_equal(np.asarray(s.fixed_grid), np.asarray(ps.fixed_grid)):
+            return ("fixed_grid_changed", "fixed_grid changed during a step")
+        sc = int(ps.step_count) + 1
+        if int(s.step_count) != sc:
+            return ("blocked_move_step_count", f"step_count {int(s.step_count)} expected {sc} (the step count is incremented by one)")
+        _, targets, boxes, _ = self._parts(ps)
+        n = self._on_targets(boxes, targets)
+        if n == N_BOXES:
+            return None  # a continuing episode is never in a solved position; if it were, the docs say nothing
+        tl = self.time_limit(env, cfg)
+        if (int(ts.step_type) == 2) != (sc >= tl):
+            return ("blocked_move_termination", f"step_type {int(ts.step_type)} after a blocked move at step {sc} (time_limit {tl})")
+        want = self._reward(cfg, n, n)
+        if not np.isclose(float(ts.reward), want, rtol=1e-5, atol=1e-6):
+            return ("blocked_move_reward", f"reward {float(ts.reward)} expected {want} (no box moved)")
+        return None
+
+    # ---- C07 -------------------------------------------------------------------------------------
+    def physical(self, ps, action, s, ts, env, cfg):
+        fg, vg = np.asarray(s.fixed_grid), np.asarray(s.variable_grid)
+        R, C = vg.shape
+        cells = [tuple(int(v) for v in x) for x in np.argwhere(vg == AGENT)]
+        if len(cells) != 1:
+            return ("agent_count", f"{len(cells)} agent cells in variable_grid: {cells}")
+        loc = self._agent(s)
+        if not (0 <= loc[0] < R and 0 <= loc[1] < C):
+            return ("agent_outside_grid", f"agent_location {loc} outside {R}x{C}")
+        if cells[0] != loc:
+            return ("agent_location_disagrees_with_grid", f"agent_location {loc} but the agent cell of variable_grid is {cells[0]}")
+        boxes = self._boxes(vg)
+        if len(boxes) != N_BOXES:
+            return ("box_count", f"{len(boxes)} boxes in variable_grid: {sorted(boxes)}")
+        if fg[loc] == WALL:
+            return ("agent_on_wall", f"agent at {loc} stands on a wall")
+        for b in sorted(boxes):
+            if fg[b] == WALL:
+                return ("box_on_wall", f"box at {b} lies on a wall")
+        if ps is not None and not np.array_equal(np.asarray(ps.fixed_grid), fg):
+            return ("fixed_grid_changed", "fixed_grid changed during a step")
+        return None
+
+    # ---- C09 -------------------------------------------------------------------------------------
+    def model_step(self, ps, action, s, ts, env, cfg):
+        a = int(action)
+        walls, targets, boxes, agent = self._parts(ps)
+        res = self._move(walls, boxes, agent, a)
+        nagent, nboxes = (agent, boxes) if res is None else res
+        vg = np.zeros_like(np.asarray(ps.variable_grid))
+        for b in nboxes:
+            vg[b] = BOX
+        vg[nagent] = AGENT
+        if not np.array_equal(np.asarray(s.variable_grid), vg):
+            k = np.argwhere(np.asarray(s.variable_grid) != vg)[0].tolist()
+            return ("variable_grid", f"variable_grid at {k} is {int(np.asarray(s.variable_grid)[tuple(k)])} expected {int(vg[tuple(k)])} "
+                    f"(agent {agent}, action {a}, {'blocked' if res is None else 'push' if nboxes != boxes else 'move'})")
+        if self._agent(s) != nagent:
+            return ("agent_location", f"agent_location {self._agent(s)} expected {nagent}")
+        if not np.array_equal(np.asarray(s.fixed_grid), np.asarray(ps.fixed_grid)):
+            return ("fixed_grid", "fixed_grid changed during a step")
+        sc = int(ps.step_count) + 1
+        if int(s.step_count) != sc:
+            return ("step_count", f"step_count {int(s.step_count)} expected {sc}")
+        before, after = self._on_targets(boxes, targets), self._on_targets(nboxes, targets)
+        want = self._reward(cfg, before, after)
+        if not np.isclose(float(ts.reward), want, rtol=1e-5, atol=1e-6):
+            return ("reward", f"reward {float(ts.reward)} expected {want} ({cfg['rew']}: boxes on targets {before} -> {after})")
+        tl = self.time_limit(env, cfg)
+        done = after == N_BOXES or sc >= tl
+        if (int(ts.step_type) == 2) != done:
+            return ("termination", f"step_type {int(ts.step_type)} but the rules say done={done} (boxes on targets {after}, step {sc}/{tl})")
+        return None
+
+    # ---- C11 -------------------------------------------------------------------------------------
+    def end_cause(self, ps, action, s, ts, env, cfg):
+        _, targets, boxes, _ = self._parts(s)
+        if self._on_targets(boxes, targets) == N_BOXES:
+            return "solved"
+        return None
+
+    # ---- C12 -------------------------------------------------------------------------------------
+    def observe(self, s, obs, env, cfg):
+        g = np.asarray(obs.grid)
+        vg, fg = np.asarray(s.variable_grid), np.asarray(s.fixed_grid)
+        if g.shape != vg.shape + (2,):
+            return ("grid_shape", f"{g.shape}")
+        if not np.array_equal(g[..., 0], vg):
+            k = np.argwhere(g[..., 0] != vg)[0].tolist()
+            return ("variable_plane", f"grid[..., 0] at {k} is {int(g[..., 0][tuple(k)])}, variable_grid has {int(vg[tuple(k)])}")
+        if not np.array_equal(g[..., 1], fg):
+            k = np.argwhere(g[..., 1] != fg)[0].tolist()
+            return ("fixed_plane", f"grid[..., 1] at {k} is {int(g[..., 1][tuple(k)])}, fixed_grid has {int(fg[tuple(k)])}")
+        if int(obs.step_count) != int(s.step_count):
+            return ("step_count", f"obs {int(obs.step_count)} vs state {int(s.step_count)}")
+        return None
+
+    # ---- policies ----------------------------------------------------------------------------------
+    def policy_survive(self, s, env, rng, legal):
+        """Never complete the level: walk without pushing; else a push that does not solve; else bump."""
+        walls, targets, boxes, agent = self._parts(s)
+        walk, push, bump = [], [], []
+        for a in [int(x) for x in rng.permutation(4)]:
+            res = self._move(walls, boxes, agent, a)
+            if res is None:
+                bump.append(a)
+            elif res[1] == boxes:
+                walk.append(a)
+            elif self._on_targets(res[1], targets) < N_BOXES:
+                push.append(a)
+        for group in (walk, bump, push):
+            if group:
+                return group[0]
+        return None
+
+    def policy_complete(self, s, env, rng, legal):
+        """Shortest solution by BFS over (agent, boxes); bounded, so it only succeeds on easy positions
+        (SimpleSolve level and toy positions close to the end). A pure function of the state (memoised)."""
+        walls, targets, boxes, agent = self._parts(s)
+        key = (walls.tobytes(), targets.tobytes(), agent, boxes)
+        if key in self._plan_memo:
+            return self._plan_memo[key]
+        first = None
+        if self._on_targets(boxes, targets) < N_BOXES:
+            start = (agent, boxes)
+            seen = {start: None}
+            dq = deque([start])
+            goal = None
+            while dq and len(seen) < 6000:
+                cur = dq.popleft()
+                for a in range(4):
+                    res = self._move(walls, cur[1], cur[0], a)
+                    if res is None or res in seen:
+                        continue
+                    seen[res] = (cur, a)
+                    if self._on_targets(res[1], targets) == N_BOXES:
+                        goal = res
+                        break
+                    dq.append(res)
+                if goal is not None:
+                    break
+            if goal is not None:
+                cur = goal
+                while seen[cur] is not None:
+                    cur, first = seen[cur][0], seen[cur][1]
+        if len(self._plan_memo) > 50000:
+            self._plan_memo.clear()
+        self._plan_memo[key] = first
+        return first
